@@ -3,10 +3,12 @@
    scripted wire transport and records what came out and how often the wire was called; [sverdict]
    recomputes the same stack in the model and compares. *)
 From Coq Require Import List ZArith Bool NArith.
-From Shoot Require Import Model.Retry Model.RetryStack Corr.RetryCorr.
+From Shoot Require Import Model.Retry Model.RetryStack Model.ChainSem Corr.RetryCorr.
 Import ListNotations.
 
 Record scase := {
+  s_via : bool;        (* assembled by shoot.Use options + RestConf.BuildMiddleware (else by hand) *)
+  s_logout : bool;     (* LoggingMiddleware outside everything (RestConf: EnableLogging(true)) *)
   s_outer : option Z; s_n : Z; s_login : bool; s_inner : option Z;
   s_script : list rt_out; s_obs : obs }.
 
@@ -15,10 +17,18 @@ Definition stack_of (c : scase) : tr :=
   let t1 := match s_inner c with Some k => retry_tr k w | None => w end in
   let t2 := if s_login c then log_tr t1 else t1 in
   let t3 := retry_tr (s_n c) t2 in
-  match s_outer c with Some k => retry_tr k t3 | None => t3 end.
+  let t4 := match s_outer c with Some k => retry_tr k t3 | None => t3 end in
+  if s_logout c then log_tr t4 else t4.
+
+(* the same stack as BuildMiddleware assembles it: the literal reverse loop of Model/ChainSem.v over
+   the middlewares in the order they were added with Use (logging inside is not expressible there) *)
+Definition opt_list (o : option Z) : list Z := match o with Some k => [k] | None => [] end.
+Definition chain_of (c : scase) : tr :=
+  retry_chain (opt_list (s_outer c) ++ [s_n c] ++ opt_list (s_inner c)) (s_logout c)
+              (wire (script_of (s_script c) (RErr 0 None))).
 
 Definition stack_obs (c : scase) : obs :=
-  let '(ev, (r, e), _) := stack_of c 0 in
+  let '(ev, (r, e), _) := (if s_via c then chain_of c else stack_of c) 0 in
   {| o_calls := calls ev; o_resp := option_map r_id r; o_err := e; o_sleeps := sleeps ev |}.
 
 Definition sverdict (c : scase) : N :=
